@@ -194,6 +194,22 @@ func runC20(c *Ctx) {
 			flagSet, tested := pathCond(p, func(t *Term) bool { return isRecvField(t, flagF) })
 			key := fmt.Sprintf("%s/path%d[%s]", shortFn(sortFn), i, pathSig(p))
 			if sorted == 0 {
+				// fewer than two values are sorted as they are: skipping (and raising the flag) is fine under that evidence
+				short := false
+				for _, cd := range p.Conds {
+					t := cd.Term
+					isLen := func(x *Term) bool {
+						return x.Op == "builtin" && x.Sym == "len" && isRecvField(x.Args[0].unver(), valuesF)
+					}
+					if t.isBin("<") && isLen(t.Args[0]) && t.Args[1].isConst("2") && cd.Taken || t.isBin("<=") && isLen(t.Args[0]) && (t.Args[1].isConst("1") || t.Args[1].isConst("0")) && cd.Taken ||
+						t.isBin("<=") && t.Args[0].isConst("2") && isLen(t.Args[1]) && !cd.Taken || t.isBin("<") && t.Args[0].isConst("1") && isLen(t.Args[1]) && !cd.Taken {
+						short = true
+					}
+				}
+				if short {
+					c.R.okay(r1, key, shortFn(sortFn), c.fpos(sortFn), "sorting skipped for fewer than two values", "["+p.String()+"]")
+					continue
+				}
 				c.R.check(tested && flagSet && raise == 0, r1, key, shortFn(sortFn), c.fpos(sortFn), "sorting is skipped only when the flag is already set", "["+p.String()+"]")
 			} else {
 				c.R.check(raise > sorted, r1, key, shortFn(sortFn), c.fpos(sortFn), "the flag is raised only after sort.Float64s(Values)", fmt.Sprintf("sort at step %d, raise at step %d", sorted, raise))
@@ -276,11 +292,43 @@ func runC20(c *Ctx) {
 	nPairs := 0
 	for _, f := range methods {
 		ps, _ := execWith(c, f, nil, 2, func(cal *ssa.Function) bool { return cal != sortFn && inlineNewHelpers(cal) })
+		// a bulk append may also be paired with a loop that increments Count once per appended value (the float
+		// Count then takes exactly the values it takes under repeated Add): a counting loop 0 … len(o.Values) whose
+		// body is Count += 1
+		countLoop := false
+		{
+			tcl := newTermCtx(c.P)
+			for _, l := range countingLoops(c.P, f) {
+				isArgLen := func(t *Term) bool {
+					t = stripConv(t)
+					return t != nil && t.Op == "builtin" && t.Sym == "len" && t.Args[0].unver().Op == "field" && t.Args[0].unver().Sym == valuesF && t.Args[0].unver().Args[0].isParam(1)
+				}
+				if !(l.StepOne && l.StayTrue && l.IVLeft && l.CondOp == "<" && l.BoundAdj == 0 && l.Init != nil && l.Init.isConst("0") && isArgLen(l.Bound)) {
+					continue
+				}
+				for b := range l.Blocks {
+					for _, in := range b.Instrs {
+						if st, ok := in.(*ssa.Store); ok {
+							at, vt := tcl.Of(st.Addr), tcl.Of(st.Val)
+							if isRecvField(at, countF) && vt.isBin("+") && (vt.Args[0].isConst("1") || vt.Args[1].isConst("1")) {
+								countLoop = true
+							}
+						}
+					}
+				}
+			}
+		}
 		for i, p := range ps {
 			single, bulk, inc1, incBulk, otherCount := 0, 0, 0, 0, 0
 			for _, e := range p.Effects {
 				if e.Kind == "store" && isRecvField(e.Addr, valuesF) && e.Val.Op == "builtin" && e.Val.Sym == "append" {
 					src := e.Val.Args[1]
+					// o.Values[:len(o.Values)] is the whole of o.Values
+					if src.Op == "slice" && src.Args[0].unver().Op == "field" && src.Args[1].Op == "none" {
+						if h := src.Args[2]; h.Op == "none" || h.Op == "builtin" && h.Sym == "len" && h.Args[0].unver().Key() == src.Args[0].unver().Key() {
+							src = src.Args[0].unver()
+						}
+					}
 					// append(Values, v) is lowered to append(Values, <fresh 1-element slice>...)
 					if src.Op == "slice" && src.Args[0].Op == "alloc" {
 						single++
@@ -306,6 +354,10 @@ func runC20(c *Ctx) {
 				continue
 			}
 			nPairs++
+			if bulk > 0 && incBulk == 0 && countLoop && single == 0 {
+				// bulk append + one increment per appended value (the loop runs 0 or more times on the enumerated path)
+				incBulk, inc1 = bulk, 0
+			}
 			c.R.check(single == inc1 && bulk == incBulk && otherCount == 0, r3, fmt.Sprintf("%s/path%d[%s]/append-paired-with-count", shortFn(f), i, pathSig(p)), shortFn(f), c.fpos(f),
 				"each one-element append is paired with Count += 1 (a bulk append of another dataset's Values with Count += its Count)", fmt.Sprintf("single appends=%d Count+=1:%d bulk appends=%d Count+=other.Count:%d unrecognised=%d", single, inc1, bulk, incBulk, otherCount))
 		}
@@ -393,8 +445,16 @@ func runC20(c *Ctx) {
 			for _, in := range b.Instrs {
 				if st, ok := in.(*ssa.Store); ok {
 					at, vt := tc.Of(st.Addr), tc.Of(st.Val)
-					if isRecvField(at, valuesF) && vt.Op == "builtin" && vt.Sym == "append" && vt.Args[1].Op == "field" && vt.Args[1].Sym == valuesF && vt.Args[1].Args[0].isParam(1) {
-						bulk = true
+					if isRecvField(at, valuesF) && vt.Op == "builtin" && vt.Sym == "append" {
+						src := vt.Args[1]
+						if src.Op == "slice" && src.Args[1].Op == "none" {
+							if h := src.Args[2]; h.Op == "none" || stripConv(h).Op == "builtin" && stripConv(h).Sym == "len" && stripConv(h).Args[0].Key() == src.Args[0].Key() {
+								src = src.Args[0]
+							}
+						}
+						if src.Op == "field" && src.Sym == valuesF && src.Args[0].isParam(1) {
+							bulk = true
+						}
 					}
 				}
 			}
